@@ -1,4 +1,5 @@
 import inspect
+from collections.abc import Callable
 from functools import partial
 from cloudpickle import dumps, loads
 
@@ -88,8 +89,14 @@ def wrap_non_picklable_objects(obj, keep_wrapper=True):
     # If obj is a  class, create a CloudpickledClassWrapper which instantiates
     # the object internally and wrap it directly in a CloudpickledObjectWrapper
     if inspect.isclass(obj):
+        # The instances of the wrapper class must be callable if and only if
+        # the instances of the wrapped class are.
+        if issubclass(obj, Callable):
+            base_wrapper = CallableObjectWrapper
+        else:
+            base_wrapper = CloudpickledObjectWrapper
 
-        class CloudpickledClassWrapper(CloudpickledObjectWrapper):
+        class CloudpickledClassWrapper(base_wrapper):
             def __init__(self, *args, **kwargs):
                 self._obj = obj(*args, **kwargs)
                 self._keep_wrapper = keep_wrapper
